@@ -29,7 +29,7 @@ LEVEL_NOTE = "Trusted: numpy double sums, SI constants, the harness's edge-to-si
 def budget(tier):
     if tier == "quick":
         return dict(max_examples=300, workers=6, time_s=170, min_cases=100)
-    return dict(max_examples=2500, workers=16, time_s=1200, min_cases=600)
+    return dict(max_examples=2500, workers=16, time_s=1200, min_cases=200)
 
 
 @st.composite
